@@ -1030,6 +1030,35 @@ func (c *Ctx) evalCall(e *Expr, env *Env) *Val {
 			return nil
 		}
 		return &Val{K: VScalar, T: types.Typ[types.Bool], S: res}
+	case "bornin":
+		// bornin(x, N): the backing array of slice x (or the object pointer x refers to) was
+		// allocated in the current iteration of loop N, or x is nil
+		if len(e.Args) != 2 || e.Args[1].Op != "num" {
+			c.specErr("bornin(<slice or pointer>, <loop number>)")
+			return nil
+		}
+		a := arg(0)
+		if a == nil {
+			return nil
+		}
+		n, _ := strconv.Atoi(e.Args[1].Name)
+		found := false
+		for _, ord := range c.loopOrd {
+			if ord == n {
+				found = true
+			}
+		}
+		if !found {
+			c.specErr("bornin(.., %d): no such loop", n)
+			return nil
+		}
+		ref := a.S
+		if a.K == VSlice {
+			ref = a.Arr
+		}
+		fn := fmt.Sprintf("bornin!%d", n)
+		c.declareFun(fn, []string{"Int"}, "Bool")
+		return &Val{K: VScalar, T: types.Typ[types.Bool], S: sOr(sEq(ref, "0"), sApp(fn, ref))}
 	case "samearray", "sliceoff":
 		// samearray(a, b): the two slices share their backing array; sliceoff(a, b): how many
 		// elements after b's first element a's first element lies (meaningful when they share
